@@ -191,6 +191,25 @@ func (c *ctx) check(sc scenario, tees []int, class string) (base result) {
 		oracle(sct, res, tl)
 		// the tee changes neither the bytes on the wire nor the outcome
 		both := append(append([]string(nil), lines...), tl...)
+		cmp := base
+		if res.oracleField() != base.oracleField() {
+			// Different features were negotiated.  Go's map iteration order may explain
+			// that when several cached features are selectable: look for a run without
+			// the tee that made the same choices.
+			found := false
+			for k := 0; k < 100 && !found; k++ {
+				again := c.exec(sc, nil)
+				if again.oracleField() == res.oracleField() {
+					cmp, found = again, true
+				}
+			}
+			if !found {
+				r.Fail("tee-transparent", fmt.Sprintf("negotiated/%s", key), both, fmt.Sprintf("tee=%d negotiated %s, tee off %s (in 101 runs)", t, res.oracleField(), base.oracleField()))
+				continue
+			}
+			r.Hist["tee-compare-after-rerun"]++
+		}
+		base := cmp
 		switch {
 		case res.outcome != base.outcome:
 			r.Fail("tee-transparent", fmt.Sprintf("outcome/%s", key), both, fmt.Sprintf("tee=%d outcome %s, tee off %s", t, res.outcome, base.outcome))
@@ -467,9 +486,11 @@ func (c *ctx) random(n int, tees []int) {
 			res := negRes{mask: []uint8{0, 2, 2, 4, 6, 1, 64}[rnd.Intn(7)], restart: rnd.Chance(1, 4), err: rnd.Chance(1, 10)}
 			sc.results = append(sc.results, res)
 		}
+		single := !rnd.Chance(1, 6) // mostly lists in which the selection is forced
 		genList := func(secure bool) unit {
 			l := unit{kind: 'L'}
 			ni := rnd.Intn(4)
+			haveOther := false
 			for k := 0; k < ni; k++ {
 				id := rnd.Intn(no + 2)
 				if id > no {
@@ -480,6 +501,12 @@ func (c *ctx) random(n int, tees []int) {
 					if id > no {
 						id = 9
 					}
+				}
+				if single && id >= 1 && id <= no {
+					if haveOther || (!compliant && !secure) {
+						id = 9
+					}
+					haveOther = true
 				}
 				l.items = append(l.items, item{id: id, req: rnd.Bool(), ok: !(id != 0 && id != 9 && rnd.Chance(1, 12))})
 			}
